@@ -58,7 +58,8 @@ def mi_matrix(Xs, Ys, n_x, n_y, normalize=True):
         jc_i = joint_counts(X, Y, np.max(n_x), np.max(n_y))
 
         if not hasattr(jc, 'shape'):
-            jc = jc_i
+            # one trajectory fits the kernel's uint32 cells, their sum may not
+            jc = jc_i.astype(np.uint64)
         else:
             if jc.shape != jc_i.shape:
                 raise exception.DataInvalid(("Trajectory %s gave a joint "
@@ -120,7 +121,7 @@ def weighted_mi(features, weights, n_feature_states=None, normalize=True):
         weights = (weights / np.linalg.norm(weights, ord=1))
 
     if n_feature_states is None:
-        n_feature_states = np.full(features.shape[1], features.max() + 1,
+        n_feature_states = np.full(features.shape[1], int(features.max()) + 1,
                                    dtype='int16')
     else:
         n_feature_states = np.array(n_feature_states)
@@ -157,7 +158,7 @@ def weighted_mi(features, weights, n_feature_states=None, normalize=True):
                             for ii in iis])
     P_prod_marg = P_prod_marg[:, 0, :, :] * P_prod_marg[:, 1, :, :]
 
-    mi_mats = np.zeros_like(P_joint)
+    mi_mats = np.zeros_like(P_joint, dtype=float)
 
     # mi_mats = P_joint * np.log(P_joint/P_prod_marg)
     np.divide(P_joint, P_prod_marg, where=(P_prod_marg != 0), out=mi_mats)
@@ -244,7 +245,7 @@ def joint_counts(X, Y=None, n_x=None, n_y=None):
             Y = Y[..., None]
 
     if n_x is None:
-        n_x = X.max()+1
+        n_x = int(X.max()) + 1
 
     if Y is None:
         if n_y is not None:
@@ -252,17 +253,21 @@ def joint_counts(X, Y=None, n_x=None, n_y=None):
         jc = libinfo.matrix_bincount2d(X, X, n_x, n_x)
     else:
         if n_y is None:
-            n_y = Y.max()+1
+            n_y = int(Y.max()) + 1
 
         if X.dtype != Y.dtype:
             warnings.warn(
                 "Feature trajs (types %s and %s) being uptyped to match." %
                 (X.dtype, Y.dtype), exception.PerformanceWarning)
 
-            if X.dtype.itemsize > Y.dtype.itemsize:
-                Y = Y.astype(X.dtype)
-            else:
-                X = X.astype(Y.dtype)
+            # a signed id cast to an unsigned type (or the reverse) would wrap
+            common = np.promote_types(X.dtype, Y.dtype)
+            if common.kind == 'f':
+                # uint64 and a signed type share no integer type; every
+                # id the kernel accepts fits int64.
+                common = np.dtype(np.int64)
+            X = X.astype(common, copy=False)
+            Y = Y.astype(common, copy=False)
 
         jc = libinfo.matrix_bincount2d(X, Y, n_x, n_y)
 
